@@ -295,7 +295,7 @@ pub fn map_sweep(max_run: u32) -> Vec<Value> {
                 }
             };
             match segs.last_mut() {
-                Some(l) if l.2 == id && l.1 + 1 == runs[k] => l.1 = runs[k],
+                Some(l) if l.2 == id && l.1.checked_add(1) == Some(runs[k]) => l.1 = runs[k],
                 _ => segs.push((runs[k], runs[k], id)),
             }
         }
